@@ -1,6 +1,7 @@
 package main
 
 import (
+	"encoding/json"
 	"fmt"
 	"os"
 	"runtime/debug"
@@ -11,6 +12,7 @@ import (
 type ruleFn func(r *Report, p *Program)
 
 type propSpec struct {
+	technique  string
 	run        ruleFn
 	decided    string
 	notDecided string
@@ -39,7 +41,12 @@ func main() {
 		}
 		sort.Strings(ids)
 		for _, id := range ids {
-			fmt.Println(id)
+			if len(os.Args) > 2 && os.Args[2] == "--json" {
+				b, _ := json.Marshal(map[string]string{"id": id, "technique": props[id].technique, "decided": props[id].decided, "not_decided": props[id].notDecided})
+				fmt.Println(string(b))
+			} else {
+				fmt.Println(id)
+			}
 		}
 	case "explain":
 		if len(os.Args) < 3 {
